@@ -111,6 +111,9 @@ static void closed_file_ops(var f, const char* after) {
       vh_violation(key, "%s on a File that is not open gave %s (%s)", NAME, vh_exc_name(exc), after); } } while (0)
   CLOSED("swrite", swrite(f, "x", 1));
   CLOSED("sread", sread(f, b, 1));
+  /* ... whatever the length: nothing to write or read is still an operation on a File that is not open */
+  CLOSED("swrite-of-no-bytes", swrite(f, "x", 0));
+  CLOSED("sread-of-no-bytes", sread(f, b, 0));
   CLOSED("sseek", sseek(f, 0, SEEK_SET));
   CLOSED("stell", stell(f));
   CLOSED("sflush", sflush(f));
